@@ -13,7 +13,10 @@ from .common import enc_list, Toks, dec_ext
 RULE = ('index types of depth <= 2 over sizes {1,2,3,4} (atoms, products, sums), 0..3 dimensions, shared physical axes (diagonals), dense '
         'covers, defaults in {0,1,-inf,inf,2}, physical values in {0,1,2,-1,3,1/2,+-inf}; every operation of the reviewed op table on '
         '1/2/3 operands over a common type list, plus a structural op followed by a second op; non-trivial = an operand that is not dense '
-        '(some virtual axis is not a plain physical axis)')
+        '(some virtual axis is not a plain physical axis); representation-level streams (the result compared token by token with the Lean '
+        'model, up to renaming of axes): binary operations, reshape/view, __getitem__, permute/transpose/T/flatten/unsqueeze/expand/any, '
+        'stack of 1..3 operands, dim_to_dense/__iter__/tolist/default_to/clone, where, log_softmax (pattern exactly, values in floating '
+        'point); float32 stream (exact unary operations, infinite/NaN defaults); zero-size stream (dimensions of size 0); unit-factor family')
 ASSUMPTIONS = ['transcendental pointwise ops (exp, log, expm1, log1p, logaddexp, log_softmax) are compared within 1e-12 relative',
                'grad/requires_grad_/detach (autograd plumbing) are exercised elsewhere, not here']
 
